@@ -95,6 +95,8 @@ def build(empty=()):
             for j in range(NST):
                 f[ik, s, j] = A.ZERO if (ik, s, j) in empty else C.var(f"f{ik}{s}{j}", positive=True)
     occ.f = f
+    # class invariant of a built Atoms object (C19: `occ.wk is kpts.wk`): the copy of the weights held by the occupations equals the k-point weights
+    occ.wk = kp.wk
     occ.F = [[np.diag(f[ik, s]) for s in range(NSPIN)] for ik in range(NK)]
     at.occ = occ
     Gk2c = []
@@ -271,3 +273,76 @@ for _cl, _funcs, _doc in (("density", ["eminus.dft:get_n_spin", "eminus.dft:get_
                            "kinetic-energy density: positive-weight sum of squares and its integral equals get_Ekin (same k-point weights)")):
     register(Obligation(name=f"C04.{_cl}.sum_of_squares_and_integral", prop=PROP, engine="A", functions=_funcs, run=Density(_cl),
                         assumes=("engineA", "reals", "numpy-structural", "fft"), doc=_doc, budget={"quick": 240, "thorough": 600}))
+
+
+# ------------------------------------------------------------------------------------------------
+# bounded native twin: the clauses on real objects, evaluated repeatedly on ONE object whose fillings change
+# ------------------------------------------------------------------------------------------------
+
+
+class DensityTauNative:
+    """BOUNDED: density and kinetic-energy-density clauses on a real Atoms object (He2, unrestricted, triclinic cell, three weighted k-points), evaluated
+    three times on the same object: with random fractional fillings (some exactly zero), after the fillings were overwritten IN PLACE through
+    `atoms.occ.f[...] = ...`, and after a new array was assigned through the setter - every evaluation uses the current fillings."""
+
+    def problems(self, seed):
+        import eminus
+        from eminus import Atoms
+        from eminus.dft import get_n_single, get_n_spin, get_n_total, orth
+        from eminus.energies import get_Ekin
+        from eminus.gga import get_tau
+
+        eminus.config.backend = "numpy"
+        eminus.config.verbose = "critical"
+        rng = np.random.default_rng(seed)
+        at = Atoms("He2", [[0.1, 0.2, 0.3], [0.3, 0.1, 3.4]], ecut=3, a=[[6.0, 0.3, 0.1], [0.2, 6.5, 0.4], [0.5, 0.1, 7.0]], unrestricted=True)
+        at.set_k([[0.0, 0.0, 0.0], [0.2, 0.1, 0.05], [0.1, -0.3, 0.2]], [0.2, 0.3, 0.5])
+        at.build()
+        W = [rng.standard_normal((2, len(at.Gk2c[ik]), at.occ.Nstate)) + 1j * rng.standard_normal((2, len(at.Gk2c[ik]), at.occ.Nstate)) for ik in range(at.kpts.Nk)]
+        Y = orth(at, W)
+        bad = []
+
+        def evaluate(stage):
+            f = np.asarray(at.occ.f)
+            ns, nt, n1 = np.asarray(get_n_spin(at, Y)), np.asarray(get_n_total(at, Y)), np.asarray(get_n_single(at, Y))
+            nel = float(np.sum(f * np.asarray(at.kpts.wk)[:, None, None]))
+            tau = np.asarray(get_tau(at, Y))
+            ekin = sum(get_Ekin(at, Y[ik], ik) for ik in range(at.kpts.Nk))
+            err = dict(negative_density=float(max(0.0, -ns.min())), total_vs_spin=float(np.abs(nt - ns.sum(axis=0)).max()),
+                       total_vs_single=float(np.abs(nt - n1.sum(axis=(0, 2))).max()), electrons=float(abs(nt.sum() * at.dV - nel)),
+                       negative_tau=float(max(0.0, -tau.min())), tau_integral_vs_Ekin=float(abs(tau.sum() * at.dV - ekin) / abs(ekin)))
+            if max(err.values()) > 1e-9:
+                bad.append(dict(stage=stage, **err))
+
+        f0 = rng.uniform(0.1, 1.0, np.shape(at.occ.f))
+        f0[0, 0, 0] = 0.0
+        f0[-1, 1, 0] = 0.0
+        at.occ._f = f0  # per-k-point fillings (the public setter takes one (Nspin, Nstate) pattern for all k-points)
+        evaluate("fillings assigned")
+        fa = at.occ.f
+        fa[...] = rng.uniform(0.0, 1.0, np.shape(fa))  # in place, through the array the property hands out
+        evaluate("fillings overwritten in place (atoms.occ.f[...] = new)")
+        at.occ._f = rng.uniform(0.2, 0.9, np.shape(fa))
+        evaluate("a new filling array assigned")
+        return bad
+
+    def __call__(self, ob, tier, seed):
+        from pycv.framework import BOUNDED_OK
+
+        try:
+            bad = self.problems(seed)
+        except Exception as e:  # noqa: BLE001
+            bad = [dict(raised=f"{type(e).__name__}: {e}")]
+        if bad:
+            return Result(REFUTED, backend="native", witness=dict(seed=seed, **{k: v for k, v in bad[0].items() if k == "stage"}), replayed=True, replay_info=dict(failing=bad),
+                          detail=f"density / kinetic-energy-density clauses on a real object: {bad[0]}")
+        return Result(BOUNDED_OK, backend="native", detail="bounded: He2 unrestricted, three weighted k-points: density and tau clauses hold for assigned fillings, after an in-place change and after a new assignment")
+
+    def replay(self, wit):
+        bad = self.problems(wit.get("seed", 0))
+        return bool(bad), dict(failing=bad)
+
+
+register(Obligation(name="C04.density_tau.native_same_object_changing_fillings", prop=PROP, engine="B", bounded=True, run=DensityTauNative(),
+                    functions=["eminus.dft:get_n_spin", "eminus.dft:get_n_total", "eminus.dft:get_n_single", "eminus.gga:get_tau", "eminus.energies:get_Ekin", "eminus.occupations:Occupations.F"],
+                    doc="BOUNDED: density / tau clauses on one real object while its fillings change (assigned, overwritten in place, assigned again)"))
